@@ -39,6 +39,27 @@ def mismatches(tree):
     return judged, out
 
 
+def repo_argument_binding(ctx, rule_id="ARG-NAME-BINDING"):
+    """The same check over every module of the package (same-module callees only): an argument named like a parameter of
+    the callee reaches that parameter.  352 forwarded names, no exception on the reviewed tree."""
+    r = ctx.rule(rule_id, "package-wide: a plain name passed to a function of the same module that has a parameter of that name lands in that parameter (no two forwarded values are exchanged)", 1)
+    total, n = 0, 0
+    for rel in ctx.repo.py_files("bempp_cl"):
+        m = ctx.repo.mod(rel)
+        judged, bad = mismatches(m.tree)
+        total += judged
+        for caller, callee, line, name, pos, par in bad:
+            n += 1
+            r.fail("%s: %s -> %s: %s" % (rel.rsplit("/", 1)[-1], caller, callee, name), rel, caller, line, "argument `%s` of %s(...) in %s" % (name, callee, caller),
+                   "`%s` is passed to %s at position %s, where the callee expects `%s`" % (name, callee, pos, par))
+    if total < 300:
+        raise AnalysisError("argument binding: only %d forwarded names found in the package" % total)
+    if not n:
+        r.ok("%d forwarded names" % total)
+    bad = ast.parse("def imp(a, parameters, device_interface):\n    pass\n\ndef f(a, parameters, device_interface):\n    return imp(a, device_interface, parameters)\n")
+    r.must_fire(len(mismatches(bad)[1]) == 2, "parameters and device_interface exchanged")
+
+
 def solver_argument_binding(ctx):
     r = ctx.rule("SOLVER-ARG-BINDING", "solver dispatchers: a name passed to an implementation function of the same module lands in the parameter of that name (tol, restart, maxiter, use_strong_form, return_residuals, return_iteration_count are not exchanged)", 2)
     total = 0
